@@ -16,7 +16,7 @@ SORTED_KEYS_ENS = """
             sorted_keys_of(map@).to_set() == map@.dom(),"""
 
 HDR_PRE = """broadcast use vstd::std_specs::hash::group_hash_axioms;
-broadcast use axiom_to_string_header_name, axiom_header_name_is_ascii_lower, axiom_lower_ascii, axiom_string_of;
+broadcast use axiom_string_obeys_key_model, axiom_to_string_header_name, axiom_header_name_is_ascii_lower, axiom_lower_ascii, axiom_string_of, axiom_string_ext, axiom_string_from_str_obeys, axiom_string_from_str;
 proof { reveal_strlit("\\n"); reveal_strlit(""); reveal_strlit(":"); assert(""@ =~= Seq::<char>::empty()); lits_auth(); }
 let ghost hm = hm_view(*headers);
 let ghost S = hdr_iter_pairs(*headers);
@@ -140,6 +140,37 @@ HDR_H5 = """
     }"""
 
 
+PAR_PRE = """broadcast use vstd::std_specs::hash::group_hash_axioms;
+broadcast use axiom_string_obeys_key_model, axiom_string_ext, axiom_string_of, axiom_lower_idempotent, axiom_to_string_string;
+proof { reveal_strlit(""); reveal_strlit("="); reveal_strlit("&"); assert(""@ =~= Seq::<char>::empty()); }
+let ghost P = url_pairs(*url);
+"""
+PAR_INV0 = """
+            invariant true,
+"""
+PAR_INV1 = """
+            invariant true,
+            decreases vx_keys_remaining(&vx_it1).len(),
+"""
+
+
+def fmt_e9(u, sf, it, k, params, args, argspecs, name):
+    """E9 for the k-th `format!(LIT, a, b..)` of the function: the macro call moves verbatim into a stub whose contract
+    (result = the literal's segments with the displayed String arguments in between) is GENERATED from the literal in the tree"""
+    a, b = it["macros"][k]["span"]
+    segs, fargs = u.parse_format_macro(sf.s(a, b))
+    if len(fargs) != len(argspecs):
+        raise Undecided("%s: format! #%d has %d arguments, contract expects %d" % (it["name"], k, len(fargs), len(argspecs)))
+    def q(x):
+        return '"' + x.replace("\\", "\\\\").replace('"', '\\"').replace("\n", "\\n") + '"@'
+    parts = []
+    for i, sg in enumerate(segs):
+        parts.append(q(sg))
+        if i < len(fargs):
+            parts.append("(" + argspecs[i] + ")")
+    return ((a, b), None, params, args, "String", "    ensures r@ == " + " + ".join(parts) + ",", dict(name=name, local=True))
+
+
 def build(u):
     hc = u.src("proxy_agent/src/common/hyper_client.rs")
     hp = u.src("proxy_agent/src/common/helpers.rs")
@@ -187,7 +218,11 @@ def build(u):
             hm_iter_ok(hm_view(*headers), hdr_iter_views(*headers)),""",
                      dict(name="vx_e11_header_iter", generics="<'a>", wrap="VxHdrIter", local=True)),
                     (tuple(L1["expr"]), None, "map: &'a HashMap<String, (String, String)>", "&map", "VxSortedKeys<'a>", SORTED_KEYS_ENS,
-                     dict(name="vx_e11_sorted_keys", generics="<'a>", wrap="VxSortedKeys", body="map.keys().sorted()", local=True))],
+                     dict(name="vx_e11_sorted_keys", generics="<'a>", wrap="VxSortedKeys", body="map.keys().sorted()", local=True)),
+                     # E9: `map[key]` (std::ops::Index for HashMap: panics if the key is absent) -- vstd has no IndexSpec for HashMap
+                    ("map[key].1.trim()", None, "map: &'a HashMap<String, (String, String)>, key: &String", "&map, key", "&'a str", """
+    requires map@.contains_key(*key),
+    ensures r@ == trim(map@[*key].1@),""", dict(name="vx_e9_map_index_value_trim", generics="<'a>", local=True))],
                 e6=[("h", None, ["$@", "trim(map@[*key].1@)", "$@"])],
                 hints=[
                     ("value.to_str()", None, "before", HDR_H1),
@@ -197,15 +232,39 @@ def build(u):
                     ("continue;", None, "before", HDR_H4C),
                     ("canonicalized_headers", -1, "before", HDR_H5),
                 ])
-            u.take_fn(hc, "get_path_and_canonicalized_parameters", external_body=True, contract="""
-        ensures r.0@ == uri_path(*url), r.1@ == canon_p(url_pairs(*url)),
-""")
+            # proved in unit authz (same contract text), assumed here
+            u.take_fn(hc, "query_pairs", external_body=True, contract="        ensures pairs_view(r@) == url_pairs(*uri),\n")
+            pit = hc.item("get_path_and_canonicalized_parameters", "fn")
+            if len(pit["loops"]) != 2 or any(l["kind"] != "for" for l in pit["loops"]) or len(pit["macros"]) != 2:
+                raise Undecided("get_path_and_canonicalized_parameters: expected two for loops and two format! calls")
+            P0, P1 = pit["loops"]
+            u.take_fn(hc, "get_path_and_canonicalized_parameters",
+                extra_attrs="#[verifier::loop_isolation(false)]",
+                contract="""
+        ensures r.0@ == uri_path(*url),  // @C04.get_path_and_canonicalized_parameters.path_as_received
+                r.1@ == canon_p(url_pairs(*url)),  // @C04.get_path_and_canonicalized_parameters.all_pairs
+                distinct_sort_keys(url_pairs(*url)) ==> r.1@ == canon_p(url_pairs(*url)),  // @C04.get_path_and_canonicalized_parameters.canonical_when_no_two_pairs_collide
+""",
+                pre_body=PAR_PRE,
+                loop_iter_names={0: "it"},
+                desugar_for={1: "vx_it1"},
+                loops={0: PAR_INV0, 1: PAR_INV1},
+                e9=[fmt_e9(u, hc, pit, 0, "key: &String, value: &String", "&key, &value", ["key@", "value@"], "vx_e9_fmt_sort_key"),
+                    fmt_e9(u, hc, pit, 1, "query_pair: &(String, String)", "&query_pair", ["query_pair.0@", "query_pair.1@"], "vx_e9_fmt_key_eq_value"),
+                    (tuple(P1["expr"]), None, "pairs: &'a HashMap<String, (String, String)>", "&pairs", "VxSortedKeys<'a>", SORTED_KEYS_ENS.replace("map@", "pairs@"),
+                     dict(name="vx_e11_sorted_keys_p", generics="<'a>", wrap="VxSortedKeys", body="pairs.keys().sorted()", local=True)),
+                    # E9: `pairs[key]` (Index for HashMap) and the built-in Clone of a tuple
+                    ("pairs[key].clone()", None, "pairs: &HashMap<String, (String, String)>, key: &String", "&pairs, key", "(String, String)", """
+    requires pairs@.contains_key(*key),
+    ensures r == pairs@[*key],""", dict(name="vx_e9_map_index_clone", local=True))],
+                hints=[])
             u.take_fn(hc, "as_sig_input",
                 pre_body="broadcast use group_items_of, axiom_clone_is_copy_u8;\nproof { reveal_strlit(\"\\n\"); }",
                 e9=[("head.method.to_string()", None, "head: &Parts", "&head", "String", "    ensures r@ == method_text(parts_method(*head)),", dict(name="vx_e9_parts_method_text", local=True)),
                     ("&head.headers", None, "head: &Parts", "&head", "&hyper::HeaderMap", "    ensures *r == parts_headers(*head),", dict(name="vx_e9_parts_headers", local=True)),
                     ("&head.uri", None, "head: &Parts", "&head", "&Uri", "    ensures *r == parts_uri(*head),", dict(name="vx_e9_parts_uri", local=True))],
                 contract="""
+        requires all_values_visible_ascii(hm_view(parts_headers(head))),  // @C13.as_sig_input.header_values_visible_ascii
         ensures r@ == sig_input_spec(parts_method(head), parts_uri(head), parts_headers(head), bytes_view(body)),  // @C04.as_sig_input.canonical_string_of_the_forwarded_parts
 """)
             u.take_fn(hc, "request_to_sign_input",
@@ -214,6 +273,7 @@ def build(u):
                 "Failed to get method from request builder".to_string(),
             ))""", "all", "", "", "Error", "", dict(name="vx_e9_builder_error", local=True))],
                 contract="""
+        requires builder_parts(*request_builder) matches Some(p) ==> all_values_visible_ascii(hm_view(parts_headers(p))),  // @C13.request_to_sign_input.header_values_visible_ascii
         ensures r matches Ok(d) ==> builder_parts(*request_builder) matches Some(p) && d@ == sig_input_spec(parts_method(p), parts_uri(p), parts_headers(p), opt_bytes(body)),  // @C04.request_to_sign_input.same_canonical_string_of_the_builders_parts
 """)
             u.take_fn(hc, "should_skip_sig",
